@@ -67,6 +67,10 @@ def lenform(ctx, t, depth=0):
         return lenform(ctx, base, depth + 1)
     if k in ('map', 'enumerate'):
         return lenform(ctx, t[1], depth + 1)
+    if k == 'range' and t[1].tag == 'const' and t[1][1] == 0 and not (t[2].tag == 'const' and t[2][1] is None):
+        return frozenset(['=' + canon(t[2])])
+    if k == 'adapt' and t[1] == 'take' and len(t.args) >= 3:
+        return lenform(ctx, t[2], depth + 1) | frozenset(['=' + canon(t[3])])
     if k == 'zip':
         return lenform(ctx, t[1], depth + 1) | lenform(ctx, t[2], depth + 1)
     if k == 'call':
